@@ -223,6 +223,48 @@ def check(fx, rep, tier):
                           'terminator (R01.2), with the sentinel / cursor-reset pairing that tells "no more buffered frames" (R01.3, R01.6)')
         _imp.rules_of(fx, rep, 'C01', {'R01.2', 'R01.3', 'R01.6'}, 'R11.5', 'a receive that touches the transport while frames of the previous read are still buffered writes (and may grow, '
                       'i.e. reallocate) the buffer that items already handed out still borrow from')
+        # R11.6: the laundered reborrow gets whatever lifetime the closure type `F: FnMut(&'x mut ReadConnection) -> Fut` asks for; today `'x` is
+        # the lifetime parameter of the stream type itself, i.e. the borrow of the connection the stream holds.  An impl that introduces a
+        # lifetime of its own (`impl<'c, 'r, ..> ReplyStream<'c, ..> where F: FnMut(&'r mut ..), Params: Deserialize<'r>`) lets a caller pick
+        # `'r = 'static`: replies then outlive the connection borrow in *safe* code, whatever the read loop does
+        rep.rule('R11.6', 'while such an escape exists: the impls of the escaping type introduce no lifetime parameter besides those of the type itself (the lifetime handed to the '
+                          'receive closure and to the decoded items is the borrow of the connection the stream holds)')
+        import ast as A
+        owners = set()
+        for s_ in esc:
+            nm_ = re.sub(r'<.*', '', (s_.body.impl_self or '')).split('::')[-1].strip()
+            if nm_:
+                owners.add(nm_)
+        n6 = 0
+        for fn_, f_ in fx.tpl.files.items():
+            if not fn_.startswith('zlink-core/src/'):
+                continue
+            for it in f_['items']:
+                if it.get('k') != 'impl':
+                    continue
+                st_ = (it.get('self_ty') or '')
+                tn = re.sub(r'<.*', '', st_).split('::')[-1]
+                if tn not in owners:
+                    continue
+                n6 += 1
+                own_l = set(re.findall(r"'[a-z_][A-Za-z0-9_]*", st_))
+                gen_l = set(re.findall(r"'[a-z_][A-Za-z0-9_]*", it.get('generics') or ''))
+                extra = sorted(gen_l - own_l - {"'static"})
+                wh = it.get('where')
+                if wh is None:
+                    rep.bad('R11.6', '%s|impl-%s|where-clause-not-extracted' % (tn, it.get('trait') or 'inherent'), '%s:%s' % (fn_, it.get('line')),
+                            'the syntax facts carry no where-clause for this impl (zl-tpl too old?)')
+                    continue
+                used = sorted(l for l in extra if l in wh)
+                rep.check(not extra, 'R11.6', '%s|impl-%s|no-free-lifetime' % (tn, it.get('trait') or 'inherent'), '%s:%s' % (fn_, it.get('line')),
+                          'impl%s %s: every lifetime is a parameter of the type (%s)' % (it.get('generics') or '', st_, ', '.join(sorted(own_l)) or 'none'),
+                          'impl%s %s introduces the lifetime%s %s that the type itself does not carry%s: the laundered `&mut ReadConnection` handed to the receive closure, and '
+                          'the items decoded from it, can be given a lifetime longer than the borrow of the connection the stream holds (a caller may name `\'static`), so '
+                          'safe code can keep a reply after the borrow ended and read it while the buffer is rewritten'
+                          % (it.get('generics') or '', st_, 's' if len(extra) > 1 else '', ', '.join(extra),
+                             (' and uses it in its bounds (%s)' % ', '.join(used)) if used else ''))
+        if not n6:
+            rep.bad('R11.6', 'anchor', '-', 'no impl block of the escaping type(s) %s found in the syntax facts' % sorted(owners))
     rep.note('laundering sites enumerated: %s' % sorted({s.key() for s in all_sites}))
     rep.floor('R11.1', 1, 'laundering sites')
     return META
